@@ -347,6 +347,9 @@ def _mini_run(fn_node, inputs):
                     pushed.append(ev(st.value.args[1]))
                 elif d == 'self.trap':
                     raise _Trap()
+                elif d and d.split('.')[0] in ('logger', 'logging',
+                                               'print'):
+                    pass
                 else:
                     raise ValueError(d)
             elif isinstance(st, ast.Expr) and \
